@@ -6,19 +6,50 @@ oracle builds the ONE input row that the index denotes (ersatz.substitute / shuf
 multisubstitute applied to the single example, the extra-argument row(s) of that example or of
 that product index) and calls `func(model, row[None], args=rows[None])` on it alone; the wrapper's
 entry must equal that value (for every model output, for every func output).  The 'before' output
-must equal func on the unmodified rows.
+must equal func on the unmodified rows: the oracle works on CLONES of X / args taken before the
+wrapper is called, so a wrapper that perturbs its input in place before evaluating 'before' is seen.
 
 Models are exact-integer float64 "recording" models without parameters: output o of example i is
 (code(sequence_i) * (o+1) + o, code(arg_0[i]) * (o+2), code(arg_1[i]) * (o+3), ..., padding) with an
 injective base-5 code of the sequence, and a different width for every output - a mix-up of rows,
-of argument rows or of outputs can neither cancel nor go unnoticed.  For func=deep_lift_shap a tiny
-differentiable float64 model with integer weights is used (compared with tolerance 1e-9; every
-mix-up changes an entry by >= 1e-3).
+of argument rows or of outputs can neither cancel nor go unnoticed.  The models REFUSE (TypeError)
+an extra argument whose shape is not (rows of X,) + the trailing shape of the argument that was
+handed to the wrapper (a flattened / mis-tiled argument is not silently re-read).  For
+func=deep_lift_shap a tiny differentiable float64 model with integer weights is used (compared with
+tolerance 1e-9; every mix-up changes an entry by >= 1e-3).
 
-Not asserted: the shape of space()'s 'before' beyond "equals func(X[i]) for every (i[, s])" (both
-(n, ...) and (n, S, ...) layouts are accepted); for ablate_annotations both (A, 1, n, ...) and
-(A, n, ...) layouts are accepted.
+Shapes: every output tensor must have exactly the shape (index axes) + (shape of func's value for
+one row) - no extra rows, no squeezed / added singleton axes.  Two layouts are tolerated because
+the statement does not choose: space()'s 'before' may be (n, ...) or (n, S, ...); for
+ablate_annotations (A, 1, n, ...) and (A, n, ...) are both accepted.
+
+Input classes beyond the plain grid (all replayable through the case dict): non-default `alphabet`
+(a permutation of ACGT) for string motifs in marginalize / space; X of dtype int8 / float32, motif
+tensors of dtype int8; arguments with trailing shape () / (1,) / (2,) / (2, 2) and dtype int64, args
+given as list or tuple; kwargs split between **kwargs and additional_func_kwargs; a user-defined
+shuffle_fn ('rot') and dinucleotide_shuffle in ablate AND ablate_annotations; an explicit
+random_state for func inside additional_func_kwargs that differs from ablate's; annotation lists
+with duplicates, with the same span repeated on different examples in interleaved order (A,B,B,A),
+whole-sequence spans, source sequences longer than the backgrounds; spacing given as int64 / int32
+tensor, list or numpy array, spacing rows of different total width with start=None, duplicate rows,
+motifs as strings / tensors / mixed / per-example tensors; start = 0 and start = last fitting
+position; random_state = 0; a func that returns a LIST of a 1-d (scalar per row) and a 3-d output;
+three argument sets in products.
+
+POSSIBLE DEFECT (case kept, disabled by CHECK_AFK_REUSE = False)
+    ablate() writes `random_state` into the caller's `additional_func_kwargs` dict when func has a
+    `random_state` parameter.  A caller that re-uses one dict for two calls with different
+    random_state gets, in the second call, the shuffles of the second seed evaluated by func with the
+    FIRST seed (stale entry wins: "if 'random_state' not in additional_func_kwargs").
+    Input: X = 2 sequences of length 10, afk = {'n_shuffles': 2};
+           ablate(Diff, X, 1, 7, n=2, random_state=5, func=deep_lift_shap, additional_func_kwargs=afk)
+           ablate(Diff, X, 1, 7, n=2, random_state=9, func=deep_lift_shap, additional_func_kwargs=afk)
+    -> the second 'after' differs (max abs diff 18) from the same call with a fresh dict.  Whether the
+    statement covers the keyword arguments func is called with is debatable (it speaks of the INPUT an
+    index denotes), hence the flag; replay({'kind': 'ablate_reuse', ...}) reproduces it.
 """
+import itertools
+
 import torch
 import numpy
 
@@ -31,33 +62,55 @@ from tangermeme.ablate import ablate, ablate_annotations
 from tangermeme.space import space
 from tangermeme.product import apply_pairwise, apply_product
 
+torch.set_num_threads(1)
+
+CHECK_AFK_REUSE = False      # see POSSIBLE DEFECT above
+
 SCOPE = {
     'quick': 'marginalize, ablate, space, marginalize_annotations, ablate_annotations, apply_pairwise, apply_product: '
              'a fixed grid (1-3 model outputs x 0-2 extra args x 1-6 annotations / 1-5 shuffles / 1-4 spacing rows / '
-             'argument sets of sizes 1-4) plus 200 seeded random cases per wrapper with 1-4 examples of length 6-12, '
-             'batch sizes 1-7 and 32, shuffle_fn shuffle / dinucleotide_shuffle, motif as string / shared tensor / per-example tensor, start None or int, '
-             'func in {predict, deep_lift_shap, saturation_mutagenesis, a two-output func, marginalize (products)}; '
-             'every output entry compared with func on the single denoted input row',
+             'argument sets of sizes 1-4), a list of ~130 targeted corner cases (start 0 / last / None with rows of different '
+             'width, random_state 0, permuted alphabet, X int8/float32, int8 motifs, args of trailing shape ()/(1,)/(2,)/(2,2) '
+             'and int64, list/tuple args, kwargs split over additional_func_kwargs, custom and dinucleotide shuffle_fn also '
+             'in ablate_annotations, func-level random_state, duplicate / interleaved-span / whole-sequence annotations, '
+             'longer source sequences, spacing as int32/list/numpy, mixed and per-example motif tensors, list-valued func '
+             'with scalar and 3-d outputs, 3 argument sets) plus 200 seeded random cases per wrapper over the same '
+             'dimensions with 1-4 examples of length 6-12, batch sizes 1-7 and 32, '
+             'func in {predict, deep_lift_shap, saturation_mutagenesis, a two-output func, a list-output func, marginalize (products)}; '
+             'every output entry compared with func on the single denoted input row (clones taken before the call), '
+             'exact output shapes, models that refuse mis-shaped argument rows',
     'thorough': 'as quick with the full grid outputs x args x annotations x func and 1200 seeded random cases per wrapper, '
                 '1-5 examples, up to 3 argument sets in products',
 }
 
 ALPHA = ['A', 'C', 'G', 'T']
+DTYPES = {'float64': torch.float64, 'float32': torch.float32, 'int8': torch.int8, 'int64': torch.int64}
 
 # ----------------------------------------------------------------------------------------------
 # models
 
 
-class Rec(torch.nn.Module):
-    """parameter-free exact-integer recording model with n_out outputs and n_args extra arguments"""
+def _check_args(X, args, arg_shapes):
+    if len(args) != len(arg_shapes):
+        raise TypeError('model expects %d extra arguments, got %d' % (len(arg_shapes), len(args)))
+    for t, (a, shp) in enumerate(zip(args, arg_shapes)):
+        if shp is not None and tuple(a.shape) != (X.shape[0],) + tuple(shp):
+            raise TypeError('model got extra argument %d of shape %s for %d sequences, expected rows of shape %s' % (
+                t, tuple(a.shape), X.shape[0], tuple(shp)))
 
-    def __init__(self, n_out, n_args):
+
+class Rec(torch.nn.Module):
+    """parameter-free exact-integer recording model with n_out outputs; arg_shapes: the trailing shape of
+    every extra argument (an int n_args = that many arguments of unchecked shape)"""
+
+    def __init__(self, n_out, arg_shapes):
         super().__init__()
-        self.n_out, self.n_args = n_out, n_args
+        if isinstance(arg_shapes, int):
+            arg_shapes = [None] * arg_shapes
+        self.n_out, self.arg_shapes = n_out, list(arg_shapes)
 
     def forward(self, X, *args):
-        if len(args) != self.n_args:
-            raise TypeError('model expects %d extra arguments, got %d' % (self.n_args, len(args)))
+        _check_args(X, args, self.arg_shapes)
         n, A, L = X.shape
         W = (torch.arange(1, A + 1, dtype=torch.float64)[:, None] * (5.0 ** torch.arange(L, dtype=torch.float64))[None, :])
         code = (X.type(torch.float64) * W).sum(dim=(1, 2))
@@ -76,10 +129,12 @@ class Rec(torch.nn.Module):
 class Diff(torch.nn.Module):
     """tiny differentiable float64 model with integer weights (for func=deep_lift_shap)"""
 
-    def __init__(self, n_args, seed):
+    def __init__(self, arg_shapes, seed):
         super().__init__()
         rs = numpy.random.RandomState(seed)
-        self.n_args = n_args
+        if isinstance(arg_shapes, int):
+            arg_shapes = [None] * arg_shapes
+        self.arg_shapes = list(arg_shapes)
         self.conv = torch.nn.Conv1d(4, 2, 3, padding=1).double()
         self.relu = torch.nn.ReLU()
         self.lin = torch.nn.Linear(2, 2).double()
@@ -90,8 +145,7 @@ class Diff(torch.nn.Module):
             self.lin.bias.zero_()
 
     def forward(self, X, *args):
-        if len(args) != self.n_args:
-            raise TypeError('model expects %d extra arguments, got %d' % (self.n_args, len(args)))
+        _check_args(X, args, self.arg_shapes)
         pos = torch.arange(1, X.shape[-1] + 1, dtype=torch.float64)
         h = self.relu(self.conv(X.type(torch.float64)))
         y = self.lin((h * pos).sum(dim=-1))
@@ -106,8 +160,30 @@ def two_output_func(model, X, args=None, batch_size=32, device='cpu', **kwargs):
     return y, X.type(torch.float64).sum(dim=1) * 3.0
 
 
+def odd_func(model, X, args=None, batch_size=32, device='cpu', **kwargs):
+    """a func that returns a LIST of a 1-d output (a scalar per row) and a 3-d output (single-output models
+    only); both depend on the sequence and on the argument rows"""
+    y = predict(model, X, args=args, batch_size=batch_size, device=device)
+    s = y.sum(dim=1)
+    return [s, X.type(torch.float64)[:, :2, :] * 2.0 + s[:, None, None]]
+
+
 FUNCS = {'predict': predict, 'dls': deep_lift_shap, 'ism': saturation_mutagenesis, 'two': two_output_func,
-         'marginalize': marginalize}
+         'odd': odd_func, 'marginalize': marginalize}
+
+
+def rot_shuffle(X, start=0, end=-1, n=1, random_state=None):
+    """a user-defined shuffle_fn: 'shuffle' j of every row rolls the region by j + 1 + random_state % 3"""
+    start, end = int(start), int(end)
+    out = []
+    for j in range(n):
+        Xj = torch.clone(X)
+        Xj[:, :, start:end] = torch.roll(X[:, :, start:end], j + 1 + (random_state or 0) % 3, dims=-1)
+        out.append(Xj)
+    return torch.stack(out, dim=1)
+
+
+SHUFFLE_FNS = {'dinuc': ersatz.dinucleotide_shuffle, 'rot': rot_shuffle}
 
 
 # ----------------------------------------------------------------------------------------------
@@ -121,24 +197,47 @@ def _seqs(rs, n, L):
     return X
 
 
-def _argset(rs, rows, t):
-    """rows x d tensor of per-row-distinct small integers"""
+def _argset(rs, rows, t, mode='std'):
+    """rows x d tensor of per-row-distinct small integers; mode 'flat': argument 0 has no trailing axis,
+    '3d': argument 0 has trailing shape (2, 2), 'int': dtype int64"""
     d = 1 + (t % 2)
+    if mode == '3d' and t == 0:
+        d = 4
     vals = rs.permutation(28)[:rows] + 1
     a = numpy.stack([vals] + [rs.randint(0, 30, size=rows) for _ in range(d - 1)], axis=1)
-    return torch.from_numpy(a.astype('float64'))
+    a = torch.from_numpy(a.astype('float64'))
+    if mode == '3d' and t == 0:
+        a = a.reshape(rows, 2, 2)
+    if mode == 'flat' and t == 0:
+        a = a[:, 0]
+    if mode == 'int':
+        a = a.type(torch.int64)
+    return a
 
 
 def _build(case, arg_rows=None):
     rs = numpy.random.RandomState(case['seed'])
     X = _seqs(rs, case['n'], case['L'])
     rows = [case['n']] * case['n_args'] if arg_rows is None else arg_rows
-    args = [_argset(rs, r, t) for t, r in enumerate(rows)]
+    args = [_argset(rs, r, t, case.get('argmode', 'std')) for t, r in enumerate(rows)]
+    shapes = [tuple(a.shape[1:]) for a in args]
     if case['func'] == 'dls':
-        model = Diff(len(rows), case['seed'])
+        model = Diff(shapes, case['seed'])
     else:
-        model = Rec(case['n_out'], len(rows))
+        model = Rec(case['n_out'], shapes)
+    X = X.type(DTYPES[case.get('xdtype', 'float64')])
     return rs, X, args, model
+
+
+def _clones(X, args):
+    return X.clone(), [a.clone() for a in args]
+
+
+def _pack(case, args):
+    """the args as handed to the wrapper"""
+    if not args:
+        return None
+    return list(args) if case.get('args_list') else tuple(args)
 
 
 def _fkw(case):
@@ -152,9 +251,13 @@ def _motif(rs, w):
     return ''.join(ALPHA[c] for c in rs.randint(0, 4, size=w))
 
 
-def _ohe(s):
-    from tangermeme.utils import one_hot_encode
-    return one_hot_encode(s, alphabet=ALPHA).unsqueeze(0).type(torch.float64)
+def _ohe(s, alphabet=None, dtype=torch.float64):
+    """own one-hot encoding of a string: channel = position of the character in the alphabet"""
+    alphabet = list(alphabet or ALPHA)
+    m = torch.zeros(1, len(alphabet), len(s), dtype=dtype)
+    for p, ch in enumerate(s):
+        m[0, alphabet.index(ch), p] = 1
+    return m
 
 
 # ----------------------------------------------------------------------------------------------
@@ -186,10 +289,7 @@ def _eq(got, exp, tol):
         if not isinstance(got, torch.Tensor):
             return 'a %s where a tensor is expected' % type(got).__name__
         if tuple(got.shape) != tuple(exp.shape):
-            if got.numel() == exp.numel() and [s for s in got.shape if s != 1] == [s for s in exp.shape if s != 1]:
-                got = got.reshape(exp.shape)     # singleton axes only
-            else:
-                return 'shape %s, expected %s' % (tuple(got.shape), tuple(exp.shape))
+            return 'shape %s, expected %s' % (tuple(got.shape), tuple(exp.shape))
         got, exp = got.type(torch.float64), exp.type(torch.float64)
         ok = torch.equal(got, exp) if tol == 0 else torch.allclose(got, exp, rtol=tol, atol=tol, equal_nan=True)
         return '' if ok else 'values differ (max abs diff %.4g)' % float((got - exp).abs().max())
@@ -221,6 +321,23 @@ def _single(case, model, x, arg_rows, extra=None):
     return _strip(res)
 
 
+def _shapes_ok(out, what, got, lead, exp):
+    """every tensor of the wrapper's output has exactly the shape lead + shape(func's value for one row)"""
+    if isinstance(exp, torch.Tensor):
+        if not isinstance(got, torch.Tensor):
+            out.append('%s holds a %s where a tensor is expected' % (what, type(got).__name__))
+            return False
+        if tuple(got.shape) != tuple(lead) + tuple(exp.shape):
+            out.append('%s has shape %s where the index axes %s followed by the shape %s of func\'s value are expected' % (
+                what, tuple(got.shape), tuple(lead), tuple(exp.shape)))
+            return False
+        return True
+    if not isinstance(got, (list, tuple)) or len(got) != len(exp):
+        out.append('%s has structure %s where func yields %s per input row' % (what, _shape_of(got), _shape_of(exp)))
+        return False
+    return all([_shapes_ok(out, '%s (output %d)' % (what, o), g, lead, e) for o, (g, e) in enumerate(zip(got, exp))])
+
+
 def _check_entries(out, what, got_struct, entries, tol, limit=3):
     """entries: iterable of (index tuple, expected value)"""
     bad = 0
@@ -240,6 +357,12 @@ def _check_entries(out, what, got_struct, entries, tol, limit=3):
         out.append('%s: %d entries differ in total' % (what, bad))
 
 
+def _check(out, what, got, lead, entries, tol):
+    """exact shape, then every entry"""
+    if _shapes_ok(out, what, got, lead, entries[0][1]):
+        _check_entries(out, what, got, entries, tol)
+
+
 def _n_outputs_ok(out, what, res, case):
     """top-level structure: a tensor for a single output, else one element per output"""
     k = _n_func_outputs(case)
@@ -257,7 +380,7 @@ def _n_outputs_ok(out, what, res, case):
 
 
 def _n_func_outputs(case):
-    if case['func'] in ('two', 'marginalize'):
+    if case['func'] in ('two', 'odd', 'marginalize'):
         return 2
     return 1 if case['func'] in ('dls', 'ism') else case['n_out']
 
@@ -269,94 +392,162 @@ def check_marginalize(case):
     out = []
     rs, X, args, model = _build(case)
     w = case['w']
+    alpha = list(case['alphabet']) if case.get('alphabet') else None
+    mdt = DTYPES[case.get('mdtype', 'float64')]
     if case['motif'] == 'str':
         motif = _motif(rs, w)
-        rows = [motif] * case['n']
+        rows = [_ohe(motif, alpha)] * case['n']
     elif case['motif'] == 'tensor1':
-        motif = _ohe(_motif(rs, w))
+        motif = _ohe(_motif(rs, w), dtype=mdt)        # an alphabet, if passed, is irrelevant for a tensor
         rows = [motif] * case['n']
     else:
-        motif = torch.cat([_ohe(_motif(rs, w)) for _ in range(case['n'])])
+        motif = torch.cat([_ohe(_motif(rs, w), dtype=mdt) for _ in range(case['n'])])
         rows = [motif[i:i + 1] for i in range(case['n'])]
-    X0 = X.clone()
+    Xc, argsc = _clones(X, args)
     kw = dict(_fkw(case))
     if args:
-        kw['args'] = tuple(args)
+        kw['args'] = _pack(case, args)
+    own = {'start': case['start'], 'func': FUNCS[case['func']]}
+    if alpha:
+        own['alphabet'] = alpha
     try:
-        if case.get('via_afk'):
-            yb, ya = marginalize(model, X, motif, start=case['start'], func=FUNCS[case['func']],
-                                 additional_func_kwargs=kw)
+        if case.get('via_afk') == 'split':
+            afk = {k: kw.pop(k) for k in list(kw) if k != 'args'}
+            yb, ya = marginalize(model, X, motif, additional_func_kwargs=afk, **own, **kw)
+        elif case.get('via_afk'):
+            yb, ya = marginalize(model, X, motif, additional_func_kwargs=kw, **own)
         else:
-            yb, ya = marginalize(model, X, motif, start=case['start'], func=FUNCS[case['func']], **kw)
+            yb, ya = marginalize(model, X, motif, **own, **kw)
     except Exception as e:
         return ['marginalize raised %s (%s) on a valid request' % (type(e).__name__, str(e)[:80])]
-    if not torch.equal(X, X0):
+    if not torch.equal(X, Xc):
         out.append('marginalize modified X')
     if not (_n_outputs_ok(out, 'before', yb, case) and _n_outputs_ok(out, 'after', ya, case)):
         return out
     tol = _tol(case)
     eb, ea = [], []
     for i in range(case['n']):
-        ar = [a[i] for a in args]
-        eb.append(((i,), _single(case, model, X[i], ar)))
-        xp = ersatz.substitute(X[i:i + 1], rows[i], start=case['start'], alphabet=ALPHA)[0]
+        ar = [a[i] for a in argsc]
+        eb.append(((i,), _single(case, model, Xc[i], ar)))
+        xp = ersatz.substitute(Xc[i:i + 1], rows[i], start=case['start'], alphabet=ALPHA)[0]
         ea.append(((i,), _single(case, model, xp, ar)))
-    _check_entries(out, 'before', yb, eb, tol)
-    _check_entries(out, 'after', ya, ea, tol)
+    _check(out, 'before', yb, (case['n'],), eb, tol)
+    _check(out, 'after', ya, (case['n'],), ea, tol)
     return out
 
 
-def check_ablate(case):
+def _ablate_call(case, model, X, args, seed, afk):
+    kw = {'batch_size': case['bs'], 'device': 'cpu'}
+    if case.get('shuffle_fn'):
+        kw['shuffle_fn'] = SHUFFLE_FNS[case['shuffle_fn']]
+    return ablate(model, X, case['start'], case['end'], n=case['n_shuf'], args=_pack(case, args), random_state=seed,
+                  func=FUNCS[case['func']], additional_func_kwargs=afk, **kw)
+
+
+def _shuffled(case, Xrow, st, en, ns, seed):
+    """the ns denoted inputs of ONE example (1, 4, L) -> (ns, 4, L); None if the shuffle_fn refuses the region"""
+    fn = case.get('shuffle_fn')
+    if fn == 'rot':
+        return torch.stack([torch.cat([Xrow[0, :, :st], torch.roll(Xrow[0, :, st:en], j + 1 + seed % 3, dims=-1),
+                                       Xrow[0, :, en:]], dim=-1) for j in range(ns)])
+    if fn == 'dinuc':
+        try:
+            return ersatz.dinucleotide_shuffle(Xrow, start=st, end=en, n=ns, random_state=seed)[0]
+        except ValueError:
+            return None
+    return ersatz.shuffle(Xrow, start=st, end=en, n=ns, random_state=seed)[0]
+
+
+def _ablate_afk(case):
+    if case['func'] != 'dls':
+        return None
+    afk = {'n_shuffles': 2}
+    if case.get('afk_rs') is not None:
+        afk['random_state'] = case['afk_rs']     # the caller's own random_state for func wins
+    return afk
+
+
+def check_ablate(case, history=None):
     out = []
     rs, X, args, model = _build(case)
     ns, st, en, seed = case['n_shuf'], case['start'], case['end'], case['rseed']
-    kw = {'batch_size': case['bs'], 'device': 'cpu'}
-    afk = {'n_shuffles': 2} if case['func'] == 'dls' else None
+    afk = _ablate_afk(case)
     dinuc = case.get('shuffle_fn') == 'dinuc'
+    Xc, argsc = _clones(X, args)
     if dinuc:
         # dinucleotide_shuffle seeds row i of a batch with random_state + i: the denoted input is row
         # (i, j) of the shuffle of the whole batch.  It refuses regions without diversity: not a case.
         try:
-            Xd = ersatz.dinucleotide_shuffle(X, start=st, end=en, n=ns, random_state=seed).type(torch.float64)
+            Xd = ersatz.dinucleotide_shuffle(Xc, start=st, end=en, n=ns, random_state=seed)
         except ValueError:
             return []
-        kw['shuffle_fn'] = ersatz.dinucleotide_shuffle
     try:
-        yb, ya = ablate(model, X, st, en, n=ns, args=tuple(args) if args else None, random_state=seed,
-                        func=FUNCS[case['func']], additional_func_kwargs=afk, **kw)
+        if history is not None:
+            # the SAME additional_func_kwargs dict was used by an earlier call with another random_state
+            _ablate_call(case, model, X, args, history, afk)
+        yb, ya = _ablate_call(case, model, X, args, seed, afk)
     except Exception as e:
         return ['ablate raised %s (%s) on a valid request' % (type(e).__name__, str(e)[:80])]
     if not (_n_outputs_ok(out, 'before', yb, case) and _n_outputs_ok(out, 'after', ya, case)):
         return out
     tol = _tol(case)
-    extra = {'random_state': seed} if case['func'] == 'dls' else None
+    extra = None
+    if case['func'] == 'dls':
+        extra = {'random_state': case['afk_rs'] if case.get('afk_rs') is not None else seed}
     eb, ea = [], []
     for i in range(case['n']):
-        ar = [a[i] for a in args]
-        eb.append(((i,), _single(case, model, X[i], ar, extra)))
-        Xs = Xd[i] if dinuc else ersatz.shuffle(X[i:i + 1], start=st, end=en, n=ns, random_state=seed)[0]
+        ar = [a[i] for a in argsc]
+        eb.append(((i,), _single(case, model, Xc[i], ar, extra)))
+        Xs = Xd[i] if dinuc else _shuffled(case, Xc[i:i + 1], st, en, ns, seed)
         for j in range(ns):
             ea.append(((i, j), _single(case, model, Xs[j], ar, extra)))
-    _check_entries(out, 'before', yb, eb, tol)
-    _check_entries(out, 'after', ya, ea, tol)
+    _check(out, 'before', yb, (case['n'],), eb, tol)
+    _check(out, 'after', ya, (case['n'], ns), ea, tol)
     return out
+
+
+def check_ablate_reuse(case):
+    """POSSIBLE DEFECT (CHECK_AFK_REUSE): a second call that re-uses the caller's additional_func_kwargs dict"""
+    return ['[afk dict re-used after a call with random_state=%d] %s' % (case['rseed0'], w)
+            for w in check_ablate(dict(case, kind='ablate'), history=case['rseed0'])]
 
 
 def check_space(case):
     out = []
     rs, X, args, model = _build(case)
-    motifs = [_motif(rs, w) for w in case['ws']]
-    if case.get('motif_tensors'):
-        motifs_in = [_ohe(m) for m in motifs]
-    else:
-        motifs_in = motifs
+    n = case['n']
+    alpha = list(case['alphabet']) if case.get('alphabet') else None
+    mode = case.get('motif_tensors')
+    motifs_in, rows = [], []          # rows[i]: the motif tensors of example i
+    per = []
+    for t, w in enumerate(case['ws']):
+        as_tensor = mode in (True, 'perex') or (mode == 'mixed' and t % 2 == 1)
+        if mode == 'perex':
+            m = torch.cat([_ohe(_motif(rs, w)) for _ in range(n)])
+            motifs_in.append(m)
+            per.append([m[i:i + 1] for i in range(n)])
+        else:
+            s = _motif(rs, w)
+            motifs_in.append(_ohe(s) if as_tensor else s)
+            per.append([_ohe(s) if as_tensor else _ohe(s, alpha)] * n)
+    rows = [[p[i] for p in per] for i in range(n)]
     spacing = case['spacing']
+    m1 = len(case['ws']) - 1
+    how = case.get('spacing_as', 'int64')
+    if how == 'list':
+        sp_in = [list(r) for r in spacing]
+    elif how == 'numpy':
+        sp_in = numpy.array(spacing, dtype='int64').reshape(len(spacing), m1)
+    else:
+        sp_in = torch.tensor(spacing, dtype=torch.int32 if how == 'int32' else torch.int64).reshape(len(spacing), m1)
+    Xc, argsc = _clones(X, args)
     kw = dict(_fkw(case))
     if args:
-        kw['args'] = tuple(args)
+        kw['args'] = _pack(case, args)
+    if alpha:
+        kw['alphabet'] = alpha
     try:
-        yb, ya = space(model, X, motifs_in, torch.tensor(spacing, dtype=torch.int64).reshape(len(spacing), len(motifs) - 1),
-                       start=case['start'], func=FUNCS[case['func']], **kw)
+        yb, ya = space(model, X, motifs_in, sp_in, start=case['start'], func=FUNCS[case['func']], **kw)
     except Exception as e:
         return ['space raised %s (%s) on a valid request' % (type(e).__name__, str(e)[:80])]
     if not (_n_outputs_ok(out, 'before', yb, case) and _n_outputs_ok(out, 'after', ya, case)):
@@ -364,20 +555,20 @@ def check_space(case):
     tol = _tol(case)
     S = len(spacing)
     # 'before' may be laid out (n, S, ...) (one copy per spacing row) or (n, ...): both say the same thing
-    per_spacing = _leaf(yb).dim() == _leaf(_single(case, model, X[0], [a[0] for a in args])).dim() + 2
+    per_spacing = _leaf(yb).dim() == _leaf(_single(case, model, Xc[0], [a[0] for a in argsc])).dim() + 2
     eb, ea = [], []
-    for i in range(case['n']):
-        ar = [a[i] for a in args]
-        b = _single(case, model, X[i], ar)
+    for i in range(n):
+        ar = [a[i] for a in argsc]
+        b = _single(case, model, Xc[i], ar)
         if per_spacing:
             eb += [((i, s), b) for s in range(S)]
         else:
             eb.append(((i,), b))
         for s in range(S):
-            xp = ersatz.multisubstitute(X[i:i + 1], motifs, list(spacing[s]), start=case['start'], alphabet=ALPHA)[0]
+            xp = ersatz.multisubstitute(Xc[i:i + 1], rows[i], list(spacing[s]), start=case['start'], alphabet=ALPHA)[0]
             ea.append(((i, s), _single(case, model, xp, ar)))
-    _check_entries(out, 'before', yb, eb, tol)
-    _check_entries(out, 'after', ya, ea, tol)
+    _check(out, 'before', yb, (n, S) if per_spacing else (n,), eb, tol)
+    _check(out, 'after', ya, (n, S), ea, tol)
     return out
 
 
@@ -390,11 +581,13 @@ def _leaf(res):
 def check_marginalize_annotations(case):
     out = []
     rs, X0, args, model = _build(case)        # X0: backgrounds (n rows), args belong to the rows of X0
-    Xsrc = _seqs(rs, case['n_src'], case['L'])
+    Xsrc = _seqs(rs, case['n_src'], case.get('L_src', case['L'])).type(DTYPES[case.get('src_dtype', 'float64')])
     ann = case['annotations']
+    X0c, argsc = _clones(X0, args)
+    Xsrcc = Xsrc.clone()
     kw = dict(_fkw(case))
     if args:
-        kw['args'] = tuple(args)
+        kw['args'] = _pack(case, args)
     try:
         yb, ya = marginalize_annotations(model, Xsrc, X0, torch.tensor(ann, dtype=torch.int64), start=case['start'],
                                          func=FUNCS[case['func']], **kw)
@@ -405,14 +598,14 @@ def check_marginalize_annotations(case):
     tol = _tol(case)
     eb, ea = [], []
     for a_i, (idx, s, e) in enumerate(ann):
-        motif = Xsrc[idx:idx + 1, :, s:e]
+        motif = Xsrcc[idx:idx + 1, :, s:e]
         for i in range(case['n']):
-            ar = [a[i] for a in args]
-            eb.append(((a_i, i), _single(case, model, X0[i], ar)))
-            xp = ersatz.substitute(X0[i:i + 1], motif, start=case['start'], alphabet=ALPHA)[0]
+            ar = [a[i] for a in argsc]
+            eb.append(((a_i, i), _single(case, model, X0c[i], ar)))
+            xp = ersatz.substitute(X0c[i:i + 1], motif, start=case['start'], alphabet=ALPHA)[0]
             ea.append(((a_i, i), _single(case, model, xp, ar)))
-    _check_entries(out, 'before', yb, eb, tol)
-    _check_entries(out, 'after', ya, ea, tol)
+    _check(out, 'before', yb, (len(ann), case['n']), eb, tol)
+    _check(out, 'after', ya, (len(ann), case['n']), ea, tol)
     return out
 
 
@@ -432,11 +625,18 @@ def check_ablate_annotations(case):
     out = []
     rs, X, args, model = _build(case)
     ann, ns, seed = case['annotations'], case['n_shuf'], case['rseed']
+    Xc, argsc = _clones(X, args)
     kw = {'batch_size': case['bs'], 'device': 'cpu'}
     if args:
-        kw['args'] = tuple(args)
+        kw['args'] = _pack(case, args)
     if case['func'] == 'dls':
         kw['additional_func_kwargs'] = {'n_shuffles': 2}
+    if case.get('shuffle_fn'):
+        kw['shuffle_fn'] = SHUFFLE_FNS[case['shuffle_fn']]
+    # every annotation is ablated on its own: the denoted inputs are the shuffles of the single example
+    shuf = [_shuffled(case, Xc[idx:idx + 1], s, e, ns, seed) for idx, s, e in ann]
+    if any(x is None for x in shuf):
+        return []                      # dinucleotide_shuffle refuses a region without diversity: not a case
     try:
         yb, ya = ablate_annotations(model, X, torch.tensor(ann, dtype=torch.int64), n=ns, random_state=seed,
                                     func=FUNCS[case['func']], **kw)
@@ -448,14 +648,13 @@ def check_ablate_annotations(case):
     extra = {'random_state': seed} if case['func'] == 'dls' else None
     eb, ea = [], []
     for a_i, (idx, s, e) in enumerate(ann):
-        ar = [a[idx] for a in args]
-        eb.append(((a_i,), _single(case, model, X[idx], ar, extra)))
-        Xs = ersatz.shuffle(X[idx:idx + 1], start=s, end=e, n=ns, random_state=seed)[0]
+        ar = [a[idx] for a in argsc]
+        eb.append(((a_i,), _single(case, model, Xc[idx], ar, extra)))
         for j in range(ns):
-            ea.append(((a_i, j), _single(case, model, Xs[j], ar, extra)))
+            ea.append(((a_i, j), _single(case, model, shuf[a_i][j], ar, extra)))
     # the example axis of length 1 is dropped only if it is there: (A, 1, n, ...) -> (A, n, ...)
-    _check_entries(out, 'before', _drop_example_axis(yb, eb[0][1], 1), eb, tol)
-    _check_entries(out, 'after', _drop_example_axis(ya, ea[0][1], 2), ea, tol)
+    _check(out, 'before', _drop_example_axis(yb, eb[0][1], 1), (len(ann),), eb, tol)
+    _check(out, 'after', _drop_example_axis(ya, ea[0][1], 2), (len(ann), ns), ea, tol)
     return out
 
 
@@ -470,15 +669,20 @@ def check_product(case):
     kw = {}
     if case['func'] == 'dls':
         kw['additional_func_kwargs'] = {'n_shuffles': 2, 'random_state': case.get('fseed', 3)}
+    extra = None
     if case['func'] == 'marginalize':
         case = dict(case, pmotif=_motif(rs, 2))
         kw['motif'] = case['pmotif']
+        if case.get('pstart') is not None:
+            kw['additional_func_kwargs'] = {'start': case['pstart']}
+            extra = {'start': case['pstart']}
+    Xc, setsc = _clones(X, sets)
     try:
-        y = fn(FUNCS[case['func']], model, X, list(sets), batch_size=case['bs'], device='cpu', **kw)
+        y = fn(FUNCS[case['func']], model, X, tuple(sets) if case.get('args_tuple') else list(sets),
+               batch_size=case['bs'], device='cpu', **kw)
     except Exception as e:
         return ['%s raised %s (%s) on a valid request' % (name, type(e).__name__, str(e)[:80])]
     tol = _tol(case)
-    import itertools
     if pairwise:
         combos = [((j,), [j] * len(sets)) for j in range(sizes[0])]
     else:
@@ -486,35 +690,24 @@ def check_product(case):
     entries = []
     for i in range(case['n']):
         for lead, js in combos:
-            ar = [sets[t][j] for t, j in enumerate(js)]
-            entries.append(((i,) + tuple(lead), _single(case, model, X[i], ar)))
-    # top-level structure
-    exp0 = entries[0][1]
-    if isinstance(exp0, torch.Tensor) != isinstance(y, torch.Tensor) or \
-            (not isinstance(exp0, torch.Tensor) and len(exp0) != len(y)):
-        return ['%s result has structure %s where func yields %s per input row' % (name, _shape_of(y), _shape_of(exp0))]
+            ar = [setsc[t][j] for t, j in enumerate(js)]
+            entries.append(((i,) + tuple(lead), _single(case, model, Xc[i], ar, extra)))
     lead_shape = (case['n'], sizes[0]) if pairwise else (case['n'],) + tuple(sizes)
-
-    def lead_ok(r):
-        if isinstance(r, torch.Tensor):
-            return tuple(r.shape[:len(lead_shape)]) == lead_shape
-        return all(lead_ok(x) for x in r)
-    if not lead_ok(y):
-        out.append('%s result shape %s does not start with %s' % (name, _shape_of(y), lead_shape))
-        return out
-    _check_entries(out, name, y, entries, tol)
+    _check(out, name, y, lead_shape, entries, tol)
     return out
 
 
 CHECKS = {'marginalize': check_marginalize, 'ablate': check_ablate, 'space': check_space,
           'marginalize_annotations': check_marginalize_annotations, 'ablate_annotations': check_ablate_annotations,
-          'pairwise': check_product, 'product': check_product}
+          'pairwise': check_product, 'product': check_product, 'ablate_reuse': check_ablate_reuse}
 
 
 def _finding(case, viol):
     """stable key of the input class"""
     k = case['kind']
     multi = _n_func_outputs(case) >= 2
+    if k == 'ablate_reuse':
+        return 'ablate-additional-func-kwargs-dict-reused'
     if k == 'ablate_annotations' and case['n_args'] > 0 and case['n'] > 1:
         return 'ablate-annotations-args-not-matched-to-example'
     if k in ('marginalize_annotations', 'ablate_annotations') and multi and len(case['annotations']) != _n_func_outputs(case):
@@ -542,6 +735,8 @@ def _pick_func(rng, kind, n_out):
             return 'marginalize'
         if r < 0.35 and n_out == 1:
             return 'two'
+        if r < 0.43 and n_out == 1:
+            return 'odd'
         return 'predict'
     if r < 0.12:
         return 'dls'
@@ -549,6 +744,8 @@ def _pick_func(rng, kind, n_out):
         return 'ism'
     if n_out == 1 and r < 0.30:
         return 'two'
+    if n_out == 1 and r < 0.40:
+        return 'odd'
     return 'predict'
 
 
@@ -561,28 +758,54 @@ def _annotations(rng, n_src, L, A, same_len=None):
     return ann
 
 
+def _pooled(rng, n_idx, spans, A):
+    """annotations drawn from a small pool of spans: repeated spans on different examples in arbitrary
+    (interleaved) order, exact duplicates"""
+    return [[rng.randrange(n_idx)] + list(rng.choice(spans)) for _ in range(A)]
+
+
 def _random_case(rng, kind, thorough, k):
     n = rng.randint(1, 5 if thorough else 4)
     L = rng.randint(6, 12)
     n_out = rng.choice([1, 1, 2, 3])
     n_args = rng.choice([0, 1, 2])
     func = _pick_func(rng, kind, n_out)
-    if func in ('dls', 'ism', 'two'):
+    if func in ('dls', 'ism', 'two', 'odd'):
         n_out = 1
     if func == 'ism' and kind in ('pairwise', 'product'):
         func = 'predict'
     bs = rng.choice([1, 2, 3, 4, 5, 7, 32])
     case = {'kind': kind, 'seed': rng.randrange(10 ** 6), 'n': n, 'L': L, 'n_out': n_out, 'n_args': n_args,
             'func': func, 'bs': bs}
+    plain = func in ('predict', 'two', 'odd', 'marginalize')
+    # dimensions shared by the wrappers (default values are left out of the case)
+    r = rng.random()
+    if r < 0.30:
+        case['argmode'] = rng.choice(['flat', '3d', 'int'])
+    if rng.random() < 0.2:
+        case['args_tuple' if kind in ('pairwise', 'product') else 'args_list'] = True
+    if plain and rng.random() < 0.2:
+        case['xdtype'] = rng.choice(['int8', 'float32'])
     if kind == 'marginalize':
         w = rng.randint(1, 3)
-        case.update(w=w, motif=rng.choice(['str', 'tensor1', 'tensorN']), start=rng.choice([None, rng.randint(0, L - w)]),
-                    via_afk=rng.random() < 0.3)
+        case.update(w=w, motif=rng.choice(['str', 'tensor1', 'tensorN']),
+                    start=rng.choice([None, rng.randint(0, L - w), rng.choice([0, L - w])]),
+                    via_afk=rng.choice([False, False, True, 'split']))
+        if rng.random() < 0.3:
+            case['alphabet'] = ''.join(rng.sample(ALPHA, 4))
+        if case['motif'] != 'str' and rng.random() < 0.3:
+            case['mdtype'] = 'int8'
     elif kind == 'ablate':
-        st = rng.randint(0, L - 2)
-        case.update(n_shuf=rng.randint(1, 5), start=st, end=rng.randint(st + 2, L), rseed=rng.randrange(1000))
-        if case['end'] - st >= 6 and rng.random() < 0.5:
+        st = rng.choice([0, rng.randint(0, L - 2)])
+        case.update(n_shuf=rng.randint(1, 5), start=st, end=rng.choice([L, rng.randint(st + 2, L)]),
+                    rseed=rng.choice([0, rng.randrange(1000)]))
+        r = rng.random()
+        if case['end'] - st >= 6 and r < 0.4:
             case['shuffle_fn'] = 'dinuc'
+        elif r > 0.8:
+            case['shuffle_fn'] = 'rot'
+        if func == 'dls' and rng.random() < 0.5:
+            case['afk_rs'] = rng.randrange(1000)
     elif kind == 'space':
         m = rng.choice([2, 2, 3])
         ws = [rng.randint(1, 2) for _ in range(m)]
@@ -596,29 +819,67 @@ def _random_case(rng, kind, thorough, k):
                 row.append(g)
                 left -= g
             spacing.append(row)
+        if S > 1 and rng.random() < 0.2:
+            spacing[-1] = list(spacing[0])          # a duplicate row
         total = sum(ws) + max(sum(r) for r in spacing)
-        case.update(ws=ws, spacing=spacing, start=rng.choice([None, rng.randint(0, L - total)]),
-                    motif_tensors=rng.random() < 0.3)
+        case.update(ws=ws, spacing=spacing, start=rng.choice([None, None, rng.randint(0, L - total), 0, L - total]),
+                    motif_tensors=rng.choice([False, False, True, 'mixed', 'perex']))
+        r = rng.random()
+        if r < 0.4:
+            case['spacing_as'] = rng.choice(['int32', 'list', 'numpy'])
+        if case['motif_tensors'] in (False, 'mixed') and rng.random() < 0.3:
+            case['alphabet'] = ''.join(rng.sample(ALPHA, 4))
     elif kind == 'marginalize_annotations':
         n_src = rng.randint(1, 3)
         A = rng.randint(1, 6)
-        ann = _annotations(rng, n_src, L, A)
+        L_src = L if rng.random() < 0.6 else L + rng.randint(1, 5)
+        if rng.random() < 0.3:
+            spans = [(s, s + w) for s, w in ((rng.randint(0, L_src - 3), rng.randint(1, 3)) for _ in range(2))]
+            ann = _pooled(rng, n_src, spans, A)
+        else:
+            ann = _annotations(rng, n_src, L_src, A)
         wmax = max(e - s for _, s, e in ann)
-        case.update(n_src=n_src, annotations=ann, start=rng.choice([None, rng.randint(0, L - wmax)]))
+        case.update(n_src=n_src, annotations=ann, start=rng.choice([None, rng.randint(0, L - wmax), 0, L - wmax]))
+        if L_src != L:
+            case['L_src'] = L_src
+        if rng.random() < 0.2:
+            case['src_dtype'] = 'int8'
     elif kind == 'ablate_annotations':
         A = rng.randint(1, 6)
-        ann = []
-        for _ in range(A):
-            s = rng.randint(0, L - 2)
-            ann.append([rng.randrange(n), s, rng.randint(s + 2, L)])
-        case.update(annotations=ann, n_shuf=rng.randint(1, 4), rseed=rng.randrange(1000))
+        r = rng.random()
+        if r < 0.35:
+            spans = []
+            for _ in range(rng.randint(2, 3)):
+                s = rng.randint(0, L - 2)
+                spans.append((s, rng.randint(s + 2, L)))
+            ann = _pooled(rng, n, spans, A)
+        else:
+            ann = []
+            for _ in range(A):
+                s = rng.randint(0, L - 2)
+                ann.append([rng.randrange(n), s, rng.randint(s + 2, L)])
+            if r > 0.9:
+                ann[-1] = [ann[-1][0], 0, L]
+        case.update(annotations=ann, n_shuf=rng.randint(1, 4), rseed=rng.choice([0, rng.randrange(1000)]))
+        r = rng.random()
+        if r < 0.2:
+            case['shuffle_fn'] = 'rot'
+        elif r < 0.4 and L >= 10:
+            # long spans only: dinucleotide_shuffle needs some diversity
+            case['annotations'] = [[i, s % 3, L - (e % 3)] for i, s, e in ann]
+            case['shuffle_fn'] = 'dinuc'
     elif kind == 'pairwise':
         na = rng.randint(1, 2)
         J = rng.randint(1, 4)
         case.update(sizes=[J] * na, n_args=na)
     elif kind == 'product':
         na = rng.randint(1, 3 if thorough else 2)
-        case.update(sizes=[rng.randint(1, 4) for _ in range(na)], n_args=na)
+        sizes = [rng.randint(1, 4) for _ in range(na)]
+        if not thorough and rng.random() < 0.12:
+            sizes = [rng.randint(1, 3) for _ in range(3)]
+        case.update(sizes=sizes, n_args=len(sizes))
+    if kind in ('pairwise', 'product') and func == 'marginalize' and rng.random() < 0.5:
+        case['pstart'] = rng.randint(0, L - 2)
     return case
 
 
@@ -650,6 +911,10 @@ def _grid(thorough):
                 for na, J in ((1, 3), (2, 4), (2, 1)):
                     for bs in (4, 5):
                         cases.append(dict(c, kind='pairwise', sizes=[J] * na, n_args=na, bs=bs))
+    return _uniq(cases)
+
+
+def _uniq(cases):
     seen, uniq = set(), []
     for c in cases:
         key = repr(sorted(c.items()))
@@ -659,10 +924,182 @@ def _grid(thorough):
     return uniq
 
 
+def _corners(thorough):
+    """targeted cases: options, boundary values and input classes the plain grid never passes"""
+    cases = []
+    b = {'seed': 11, 'n': 3, 'L': 9, 'bs': 2, 'n_out': 1, 'n_args': 1, 'func': 'predict'}
+    b2 = dict(b, n_out=2, n_args=2)
+
+    # -- marginalize
+    m = dict(b, kind='marginalize', w=2, motif='str', start=3, via_afk=False)
+    for L, w in ((8, 2), (8, 3), (9, 2), (9, 3)):          # centred start: all parities
+        cases.append(dict(m, L=L, w=w, start=None))
+    for st in (0, 7):                                       # first / last fitting position (0 is not "None")
+        cases.append(dict(m, start=st))
+        cases.append(dict(m, start=st, motif='tensorN'))
+    for al in ('TGCA', 'CATG'):
+        cases.append(dict(m, alphabet=al))
+        cases.append(dict(m, alphabet=al, start=None, w=3, n_out=2))
+        cases.append(dict(m, alphabet=al, motif='tensor1'))
+    for xd in ('int8', 'float32'):
+        cases.append(dict(m, xdtype=xd))
+        cases.append(dict(m, xdtype=xd, motif='tensorN', mdtype='int8'))
+    cases.append(dict(m, motif='tensor1', mdtype='int8'))
+    for via in (True, 'split'):
+        cases.append(dict(m, via_afk=via))
+        cases.append(dict(b2, kind='marginalize', w=2, motif='tensorN', start=None, via_afk=via))
+    for am in ('flat', '3d', 'int'):
+        cases.append(dict(m, argmode=am, args_list=am == 'flat'))
+    cases.append(dict(m, func='odd'))
+    cases.append(dict(m, func='odd', n=1, n_args=2, start=None))
+    cases.append(dict(m, n=1, w=9, start=None))             # the motif replaces the whole sequence
+    cases.append(dict(m, n=1, w=9, start=0))
+
+    # -- ablate
+    a = dict(b, kind='ablate', n_shuf=3, start=1, end=6, rseed=5)
+    cases.append(dict(a, start=0, end=9))
+    cases.append(dict(a, rseed=0))
+    cases.append(dict(a, rseed=0, n_out=3, n_args=2))
+    for ns in (1, 5):
+        cases.append(dict(a, n_shuf=ns))
+        cases.append(dict(b2, kind='ablate', n_shuf=ns, start=2, end=9, rseed=1, bs=3))
+    for am in ('flat', '3d', 'int'):
+        cases.append(dict(a, argmode=am))
+        cases.append(dict(a, argmode=am, n_args=2, args_list=True, n_shuf=2, n=2))
+    for fn in ('rot', 'dinuc'):
+        cases.append(dict(a, shuffle_fn=fn, L=12, start=1, end=11, seed=3))
+        cases.append(dict(b2, kind='ablate', shuffle_fn=fn, L=12, start=0, end=12, n_shuf=2, rseed=0, seed=4))
+    for xd in ('int8', 'float32'):
+        cases.append(dict(a, xdtype=xd))
+    cases.append(dict(a, xdtype='int8', shuffle_fn='dinuc', L=12, start=1, end=11, seed=3))
+    cases.append(dict(a, func='odd'))
+    cases.append(dict(a, func='odd', n_args=0, n_shuf=1))
+    cases.append(dict(a, func='two', n_args=2, n_shuf=4))
+    cases.append(dict(a, func='dls', afk_rs=17, n=2, n_shuf=2))
+    cases.append(dict(a, func='dls', n=2, n_shuf=2, rseed=0))
+
+    # -- space
+    s = dict(b, kind='space', ws=[2, 1], spacing=[[0], [3], [1]], start=None, motif_tensors=False)
+    cases.append(s)                                          # rows of different width, each centred on its own
+    cases.append(dict(s, L=8))
+    cases.append(dict(s, ws=[1, 2, 1], spacing=[[0, 0], [2, 1], [1, 3], [0, 4]]))
+    cases.append(dict(b2, kind='space', ws=[1, 2, 1], spacing=[[3, 2], [0, 0]], start=None, motif_tensors=False, L=10))
+    cases.append(dict(s, start=0))
+    cases.append(dict(s, start=3))                           # the widest row ends at the last position
+    cases.append(dict(s, spacing=[[2]]))                     # a single row
+    cases.append(dict(s, spacing=[[1], [1], [0], [1]]))      # duplicate rows
+    cases.append(dict(s, spacing=[[3], [2], [1], [0]], n=4))   # n == S: a missing transpose keeps the shape
+    for how in ('int32', 'list', 'numpy'):
+        cases.append(dict(s, spacing_as=how))
+        cases.append(dict(s, spacing_as=how, ws=[1, 1, 2], spacing=[[1, 0], [0, 2]], start=1))
+    for mt in (True, 'mixed', 'perex'):
+        cases.append(dict(s, motif_tensors=mt))
+        cases.append(dict(b2, kind='space', ws=[2, 2, 1], spacing=[[0, 1], [1, 0], [2, 2]], start=0, motif_tensors=mt))
+    for al in ('TGCA', 'GATC'):
+        cases.append(dict(s, alphabet=al))
+        cases.append(dict(s, alphabet=al, motif_tensors='mixed', ws=[2, 2], start=1))
+    for am in ('flat', '3d', 'int'):
+        cases.append(dict(s, argmode=am, args_list=am == '3d'))
+    cases.append(dict(s, xdtype='int8'))
+    cases.append(dict(s, xdtype='float32', motif_tensors='perex'))
+    cases.append(dict(s, func='odd'))
+    cases.append(dict(s, func='two', n_args=2, spacing=[[4], [0]]))
+
+    # -- marginalize_annotations
+    ma = dict(b, kind='marginalize_annotations', n_src=3, start=None)
+    cases.append(dict(ma, annotations=[[0, 1, 3], [1, 4, 6], [2, 4, 6], [0, 1, 3]]))           # A,B,B,A
+    cases.append(dict(ma, annotations=[[2, 0, 2], [2, 0, 2], [0, 3, 6], [2, 0, 2], [1, 3, 6]]))  # duplicates
+    cases.append(dict(b2, kind='marginalize_annotations', n_src=2, start=0,
+                      annotations=[[1, 6, 9], [0, 0, 1], [1, 6, 9], [0, 2, 4], [0, 0, 1]]))
+    cases.append(dict(ma, annotations=[[1, 0, 9]]))                                            # a whole sequence
+    cases.append(dict(ma, annotations=[[1, 0, 9], [0, 0, 9], [2, 1, 2]], n_out=2))
+    cases.append(dict(ma, L_src=14, annotations=[[0, 10, 14], [2, 9, 11], [1, 0, 4], [2, 12, 14]]))
+    cases.append(dict(ma, L_src=14, annotations=[[0, 3, 12]], start=0))
+    for st in (0, 6):
+        cases.append(dict(ma, annotations=[[2, 5, 8], [0, 1, 4], [1, 3, 6]], start=st))
+    cases.append(dict(ma, src_dtype='int8', annotations=[[2, 5, 8], [0, 1, 3]]))
+    cases.append(dict(ma, xdtype='int8', annotations=[[2, 5, 8], [0, 1, 3], [1, 1, 2]]))
+    for am in ('flat', '3d', 'int'):
+        cases.append(dict(ma, argmode=am, args_list=am == 'int', annotations=[[2, 5, 8], [0, 1, 3], [1, 7, 8]]))
+    cases.append(dict(ma, func='odd', annotations=[[2, 5, 8], [0, 1, 3], [1, 7, 8]]))
+    cases.append(dict(ma, func='odd', annotations=[[2, 5, 8]], n_args=0))
+    cases.append(dict(ma, func='two', annotations=[[2, 5, 8], [0, 1, 3], [1, 7, 8], [1, 7, 9]], n_args=2))
+    cases.append(dict(ma, n=1, annotations=[[2, 5, 8], [0, 1, 3], [1, 7, 8]]))
+    cases.append(dict(ma, n_src=1, annotations=[[0, 5, 8], [0, 1, 3]], n_out=3))
+
+    # -- ablate_annotations
+    aa = dict(b, kind='ablate_annotations', n=4, n_shuf=2, rseed=5)
+    inter = [[0, 1, 5], [1, 3, 8], [2, 3, 8], [3, 1, 5]]                                       # spans A,B,B,A
+    cyc = [[0, 1, 5], [1, 3, 8], [2, 0, 4], [3, 1, 5], [1, 0, 4]]                              # spans A,B,C,A,C
+    dup = [[2, 1, 5], [0, 2, 7], [2, 1, 5], [2, 1, 5], [0, 2, 7]]                              # exact duplicates
+    for ann in (inter, cyc, dup):
+        cases.append(dict(aa, annotations=ann))
+        cases.append(dict(aa, annotations=ann, n_args=0))
+        cases.append(dict(aa, annotations=ann, n_out=2, n_args=2, n_shuf=3, rseed=0))
+    cases.append(dict(aa, annotations=[[3, 0, 9], [0, 0, 9], [1, 7, 9]]))                      # whole sequences, last two
+    cases.append(dict(aa, annotations=[[3, 2, 6], [2, 2, 6], [1, 2, 6], [0, 2, 6]]))           # descending examples
+    cases.append(dict(aa, annotations=inter, n_shuf=1))
+    cases.append(dict(aa, annotations=cyc, n_shuf=1, n_out=3))
+    for fn in ('rot', 'dinuc'):
+        long_ = [[0, 0, 11], [1, 1, 12], [2, 1, 12], [3, 0, 11], [1, 0, 12]]
+        cases.append(dict(aa, L=12, annotations=long_, shuffle_fn=fn, seed=5))
+        cases.append(dict(aa, L=12, annotations=long_, shuffle_fn=fn, seed=6, n_out=2, n_args=2, rseed=0))
+    for am in ('flat', '3d', 'int'):
+        cases.append(dict(aa, argmode=am, args_list=am == 'flat', annotations=inter))
+    cases.append(dict(aa, xdtype='int8', annotations=dup))
+    cases.append(dict(aa, func='odd', annotations=inter))
+    cases.append(dict(aa, func='odd', annotations=[[1, 2, 6]], n_args=0))
+    cases.append(dict(aa, func='two', annotations=cyc, n_args=2))
+    cases.append(dict(aa, func='dls', annotations=inter, n=4))
+
+    # -- products
+    p = dict(b, kind='product')
+    for sizes, bs in (([2, 1, 3], 5), ([2, 2, 2], 3), ([1, 3, 2], 32), ([3, 1, 1], 4), ([4, 4], 7), ([1, 1], 2)):
+        cases.append(dict(p, sizes=sizes, n_args=len(sizes), bs=bs))
+        cases.append(dict(p, sizes=sizes, n_args=len(sizes), bs=bs, n_out=2, args_tuple=True))
+    for am in ('flat', '3d', 'int'):
+        cases.append(dict(p, sizes=[3, 2], n_args=2, bs=4, argmode=am))
+        cases.append(dict(p, kind='pairwise', sizes=[4, 4], n_args=2, bs=5, argmode=am, args_tuple=am == '3d'))
+    for func in ('odd', 'two', 'marginalize'):
+        cases.append(dict(p, sizes=[2, 3], n_args=2, bs=4, func=func, pstart=1 if func == 'marginalize' else None))
+        cases.append(dict(p, kind='pairwise', sizes=[3, 3], n_args=2, bs=4, func=func, pstart=0 if func == 'marginalize' else None))
+    cases.append(dict(p, sizes=[2, 3], n_args=2, bs=5, func='marginalize', n_out=2, pstart=7))
+    cases.append(dict(p, sizes=[3, 2], n_args=2, bs=4, xdtype='int8'))
+    cases.append(dict(p, kind='pairwise', sizes=[3], n_args=1, bs=2, xdtype='float32'))
+    cases.append(dict(p, sizes=[4, 2], n_args=2, bs=3, n=1))
+    cases.append(dict(p, kind='pairwise', sizes=[4, 4], n_args=2, bs=3, n=1, n_out=3))
+    cases.append(dict(p, sizes=[2, 3], n_args=2, bs=18))            # batch_size == size of the product
+    cases.append(dict(p, sizes=[2, 3], n_args=2, bs=1))
+    for c in cases:
+        for k in [k for k, v in c.items() if v is None and k != 'start']:
+            del c[k]
+    return _uniq(cases)
+
+
+def _reuse_cases():
+    return [{'kind': 'ablate_reuse', 'seed': 1, 'n': 2, 'L': 10, 'bs': 2, 'n_out': 1, 'n_args': 0, 'func': 'dls',
+             'n_shuf': 2, 'start': 1, 'end': 7, 'rseed0': 5, 'rseed': 9}]
+
+
 def run(rep):
     thorough = rep.tier == 'thorough'
+    torch.set_num_threads(1)
     torch.manual_seed(rep.seed)
     numpy.random.seed(rep.seed)
+    corners = _corners(thorough)
+    for c in corners:
+        if rep.out_of_time():
+            rep.note('time budget reached inside the corner cases')
+            return
+        _evaluate(rep, c)
+    rep.mark_exhaustive('list of %d targeted corner cases (options, boundary values, annotation / spacing / argument '
+                        'layouts)' % len(corners))
+    if CHECK_AFK_REUSE:
+        for c in _reuse_cases():
+            _evaluate(rep, c)
+    else:
+        rep.note('POSSIBLE DEFECT not asserted (CHECK_AFK_REUSE = False): ablate() stores random_state in the '
+                 "caller's additional_func_kwargs dict; a re-used dict makes func run with the stale seed")
     grid = _grid(thorough)
     for c in grid:
         if rep.out_of_time():
